@@ -91,6 +91,17 @@ _CMP = {
 
 ANALOG_PIN_RE = re.compile(r"^A\d+$")
 
+# Verification hook (off unless REDUINO_VERIF=1): records every source line the parser
+# skips without translating it, as (scope, depth, stripped line, reason).
+import os as _verif_os
+
+_VERIF_SKIPPED: List[Tuple[str, int, str, str]] = []
+
+
+def _verif_note_skip(scope: str, depth: int, line: str, reason: str) -> None:
+    if _verif_os.environ.get("REDUINO_VERIF") == "1":
+        _VERIF_SKIPPED.append((scope, depth, line, reason))
+
 
 def _escape_string_literal(value: str) -> str:
     """Escape a Python string literal into a C/C++ literal body."""
@@ -2349,6 +2360,7 @@ def _parse_simple_lines(
             or RE_IMPORT_BUTTON.match(line)
             or RE_IMPORT_LCD.match(line)
         ):
+            _verif_note_skip(scope, depth, line, "import")
             i += 1
             continue
 
@@ -2397,12 +2409,14 @@ def _parse_simple_lines(
         m = RE_TARGET_CALL.match(line)
         if m:
             ctx["target_port"] = m.group(1)
+            _verif_note_skip(scope, depth, line, "target")
             i += 1
             continue
 
         inline_matches = list(RE_TARGET_INLINE.finditer(line))
         if inline_matches:
             ctx["target_port"] = inline_matches[-1].group(1)
+            _verif_note_skip(scope, depth, line, "target-inline")
             i += 1
             continue
 
@@ -4122,6 +4136,7 @@ def _parse_simple_lines(
                 and isinstance(expr_node.func, ast.Name)
                 and expr_node.func.id == "print"
             ):
+                _verif_note_skip(scope, depth, line, "print")
                 i += 1
                 continue
             try:
@@ -4173,8 +4188,13 @@ def _parse_simple_lines(
                         _eval_const(line, vars)
                     except Exception:
                         body.append(ExprStmt(expr=expr_c))
+                    else:
+                        _verif_note_skip(scope, depth, line, "constant-expression")
                 i += 1
                 continue
+            _verif_note_skip(scope, depth, line, "expression-translation-failed")
+        else:
+            _verif_note_skip(scope, depth, line, "not-an-expression")
 
         # unknown → ignore
         i += 1
@@ -4228,11 +4248,13 @@ def parse(src: str) -> Program:
         m = RE_TARGET_CALL.match(text)
         if m:
             ctx["target_port"] = m.group(1)
+            _verif_note_skip("top", 0, text, "target")
             i += 1; continue
 
         inline_matches = list(RE_TARGET_INLINE.finditer(text))
         if inline_matches:
             ctx["target_port"] = inline_matches[-1].group(1)
+            _verif_note_skip("top", 0, text, "target-inline")
             i += 1; continue
 
         # ignore imports
@@ -4246,6 +4268,7 @@ def parse(src: str) -> Program:
             or RE_IMPORT_BUTTON.match(text)
             or RE_IMPORT_POTENTIOMETER.match(text)
         ):
+            _verif_note_skip("top", 0, text, "import")
             i += 1; continue
 
         # controls
